@@ -24,6 +24,7 @@ import vlib
 LEVEL = "model_checking"
 TRACE_MODULE = "TreeTrace"
 TRACE_CFG = "TreeTrace.cfg"
+XMX = "2g"   # the models are small; a modest heap keeps the JVMs out of the shared box's OOM killer
 OP_FIELDS = ("op", "as", "ap", "bs", "bp", "d", "pos", "pos2", "x", "rv", "ss")
 LINK_REASONS = {"parent-link", "root-has-parent", "dangling-link"}
 # outputs that merely follow the parent links: implied by a link reason, not part of the signature
@@ -67,6 +68,55 @@ def script_of(hist_lines):
     return ops
 
 
+def judge_trace(ctx, path, per=6000, workers=12):
+    """Like vlib.judge_trace, but with chunks of bounded size (<= `per` lines, cut at history
+    boundaries), a 2 GB heap per judge and at most `workers` TLC processes at a time: a TLC process
+    holds its whole chunk as TLA+ values (~80 bytes of heap per byte of JSON), and 16 judges with
+    30 MB chunks each exhausted the memory of the shared box."""
+    lines = open(path).read().splitlines()
+    per = min(per, max(1500, (len(lines) + vlib.NCPU - 1) // vlib.NCPU))
+    chunks = []
+    cur = []
+    start = 0
+    for i, l in enumerate(lines):
+        if len(cur) >= per and '"e":"reset"' in l:
+            chunks.append((start, cur))
+            cur = []
+            start = i
+        cur.append(l)
+    if cur:
+        chunks.append((start, cur))
+    files = []
+    for k, (st, c) in enumerate(chunks):
+        fp = "%s.part%d" % (path, k)
+        with open(fp, "w") as f:
+            f.write("\n".join(c) + "\n")
+        files.append((fp, st))
+    del lines, chunks
+
+    def one(ch):
+        fp, first = ch
+        r = vlib.tlc(TRACE_MODULE, TRACE_CFG, workers=1, env={"TRACE": fp}, timeout=1500, tag="TreeTrace_j", xmx="2g")
+        v = vlib._verdict_lines(r.out)
+        if "VERDICT" in v:
+            bad = []
+            for b in v["VERDICT"][-1]["bad"]:
+                b = dict(b)
+                b["l"] += first
+                bad.append(b)
+        elif "STUCK" in v:
+            bad = [{"l": int(v["STUCK"][-1]) + first, "op": "?", "why": ["no-action-explains-event"]}]
+        else:
+            raise vlib.Infra("trace judge gave no verdict on %s (rc=%d):\n%s" % (fp, r.rc, "\n".join(r.out.splitlines()[-40:])))
+        os.unlink(fp)
+        return bad, r.generated
+    res = vlib.parallel(one, files, workers=workers)
+    bad = [b for bs, _ in res for b in bs]
+    ctx.extra["trace_states"] = ctx.extra.get("trace_states", 0) + sum(g for _, g in res)
+    ctx.extra["judge_chunks"] = ctx.extra.get("judge_chunks", 0) + len(files)
+    return sorted(bad, key=lambda b: b["l"])
+
+
 def judge_file(ctx, path, what, rc, out):
     lines, tail = vlib.check_trace_file(path)
     if rc != 0:
@@ -90,7 +140,7 @@ def judge_file(ctx, path, what, rc, out):
             f.write("\n".join(lines) + ("\n" if lines else ""))
     if not lines:
         return lines
-    bad = vlib.judge_trace(ctx, TRACE_MODULE, TRACE_CFG, path)
+    bad = judge_trace(ctx, path)
     ctx.evaluations += sum(1 for x in lines if '"e":"op"' in x)
     for b in bad:
         if "HARNESS-PRECONDITION" in b["why"] or "MALFORMED-DUMP" in b["why"]:
@@ -188,7 +238,7 @@ def judge_vacuity(ctx, lines):
                     f.write(x + "\n")
             f.write('{"e":"end"}\n')
             n += 1
-    bad = vlib.judge_trace(ctx, TRACE_MODULE, TRACE_CFG, path, nchunks=1)
+    bad = judge_trace(ctx, path, per=10 ** 9)
     got = {b["l"]: b["why"] for b in bad}
     for ln, reason in expect.items():
         if reason not in got.get(ln, []):
@@ -203,36 +253,36 @@ def judge_vacuity(ctx, lines):
 def run(ctx):
     thorough = ctx.tier == "thorough"
     # 1. the specification itself: abstract forest, and the pointer-level transcription in lock-step
-    vlib.tlc_mc(ctx, "Tree", "MC_Tree.cfg")
-    r = vlib.tlc_mc(ctx, "TreeImpl", "MC_TreeImpl.cfg", coverage=thorough)
+    vlib.tlc_mc(ctx, "Tree", "MC_Tree.cfg", xmx=XMX)
+    r = vlib.tlc_mc(ctx, "TreeImpl", "MC_TreeImpl.cfg", coverage=thorough, xmx=XMX)
     if thorough:
         zero = [k for k, (t, g) in r.coverage().items() if t == 0]
         if zero:
             raise vlib.Infra("coverage: actions never taken: %s" % zero)
-        vlib.tlc_mc(ctx, "Tree", "MC_Tree_big.cfg", timeout=3000)
-        vlib.tlc_mc(ctx, "TreeImpl", "MC_TreeImpl_big.cfg", timeout=3000)
+        vlib.tlc_mc(ctx, "Tree", "MC_Tree_big.cfg", timeout=3000, xmx=XMX)
+        vlib.tlc_mc(ctx, "TreeImpl", "MC_TreeImpl_big.cfg", timeout=3000, xmx=XMX)
     # 2. vacuity guards: each invariant CAN fail - with a defect re-introduced into the transcription
     #    TLC must find a counterexample (SwapBug/CopyAssignBug/MoveAssignBug = the unrepaired code)
     def guard(g):
         cfg, inv, _ = g
-        return cfg, inv, vlib.tlc("TreeImpl", cfg, workers=2, tag="TreeImpl_g")
+        return cfg, inv, vlib.tlc("TreeImpl", cfg, workers=2, tag="TreeImpl_g", xmx="1g")
     for cfg, inv, r in vlib.parallel(guard, [g for g in GUARDS if thorough or g[2]], workers=5):
         if inv not in r.invariant_violated:
             raise vlib.Infra("vacuity guard: %s did not violate %s" % (cfg, inv))
         ctx.extra.setdefault("vacuity_guards", []).append({"cfg": cfg, "violates": inv, "states": r.distinct})
     if thorough:
         # dropping `ret.parent_ = nullptr` from release()/pop_*() is unobservable: the model says so
-        r = vlib.tlc_mc(ctx, "TreeImpl", "MC_TreeImpl_releasenoclear.cfg", workers=4)
+        r = vlib.tlc_mc(ctx, "TreeImpl", "MC_TreeImpl_releasenoclear.cfg", workers=4, xmx=XMX)
         ctx.extra["equivalent_mutant_release_no_clear_states"] = r.distinct
     # 3. operation scripts, one per generated transition
-    r = vlib.tlc_mc(ctx, "Tree", "MC_TreeScripts.cfg", workers=4)
+    r = vlib.tlc_mc(ctx, "Tree", "MC_TreeScripts.cfg", workers=4, xmx=XMX)
     scripts = vlib._verdict_lines(r.out).get("SCRIPT", [])
     if len(scripts) < 1000:
         raise vlib.Infra("script emission produced only %d scripts" % len(scripts))
     if not thorough:
         scripts = scripts[ctx.seed % 2::2]
     r = vlib.tlc_mc(ctx, "TreeImpl", "MC_TreeImplScripts_big.cfg" if thorough else "MC_TreeImplScripts.cfg", workers=4,
-                    timeout=3000)
+                    timeout=3000, xmx=XMX)
     iscripts = vlib._verdict_lines(r.out).get("SCRIPT", [])
     if len(iscripts) < 1000:
         raise vlib.Infra("impl script emission produced only %d scripts" % len(iscripts))
@@ -249,7 +299,7 @@ def run(ctx):
         count_classes(ctx, lines[:200000])
         ctx.sample({"tlc_script": scripts[len(scripts) // 2]})
     # 5. code -> spec
-    nh, ml = (12000, 40) if thorough else (1000, 40)
+    nh, ml = (8000, 40) if thorough else (1000, 40)
     tpath = os.path.join(ctx.workdir, "recorded.ndjson")
     rc, out = vlib.run_harness(binary, ["record", tpath, ctx.seed, nh, ml], timeout=3000)
     lines = judge_file(ctx, tpath, "random history", rc, out)
